@@ -216,3 +216,34 @@ Proof.
         destruct d; cbn [repeat] in E; [discriminate|]. inversion E; subst. constructor; [exact Ha|]. eapply IH; reflexivity.
     + intros [Hl Hall]. subst d. induction Hall as [|a t Ha Hall IH]; cbn [length repeat]; constructor; auto.
 Qed.
+
+(* ---------- inputs that are all precise distributions, direct strategy: the output has zero width ---------- *)
+From PUN Require Import Proofs.B2B Proofs.Iso.
+Section Precise.
+Variable steps : nat.
+Variables plo phi : R.
+Notation grid := (p_values RN steps plo phi).
+Hypothesis grid_len : @length R grid = steps.
+Hypothesis grid_ok : Forall (fun a => 0 < a <= 1) grid.
+Hypothesis grid_sorted : Rsorted grid.
+Variables (fexp : R -> R) (fpow : R -> nat -> R).
+Hypothesis fexp_is : forall x, fexp x = exp x.
+Hypothesis fpow_is : forall x k, fpow x k = x ^ k.
+
+Lemma cut_box_precise (qs : list (list R)) : forall row : list R,
+  cut_box RN steps plo phi (map (fun q => (q, q)) qs) row =
+  map (fun x => (x, x)) (map2 (fun q a => nth0 RN q (find_nearest RN grid a)) qs row).
+Proof. unfold cut_box. induction qs as [|q qs IH]; intros [|a row]; cbn [map map2]; try reflexivity. f_equal. apply IH. Qed.
+Theorem mixed_all_precise e (qs : list (list R)) (levels : list (list R)) focal : pos_pows e -> (1 < length levels)%nat ->
+  focal_elements RN steps plo phi (direct RN fexp fpow e) (map (fun q => (q, q)) qs) levels = Ok focal ->
+  exists p, mixture RN steps plo phi focal = Ok p /\ fst p = snd p.
+Proof.
+  intros Hp Hm Hf. unfold focal_elements in Hf. apply sequence_ok in Hf.
+  assert (Hlen : length focal = length levels) by (apply Forall2_len in Hf; rewrite map_length in Hf; symmetry; exact Hf).
+  apply (mixture_precise steps plo phi grid_len grid_ok grid_sorted).
+  - eapply Nat.lt_le_trans; [exact Hm|]. rewrite <- Hlen. apply Nat.le_refl.
+  - clear Hm Hlen. revert focal Hf. induction levels as [|row levels IH]; intros focal Hf; cbn [map] in Hf; inversion Hf as [|? y ? focal' Hy Hf']; subst; constructor.
+    + cbn beta in Hy. rewrite cut_box_precise in Hy. rewrite (direct_point fexp fpow fpow_is e _ y Hp Hy). reflexivity.
+    + apply IH; assumption.
+Qed.
+End Precise.
